@@ -122,6 +122,13 @@ spif_charptr_t spiftool_chomp(spif_charptr_t s)
     __CPROVER_assume(n < VREMAIN(s));
     s[n] = 0;                                   /* still a C string */
     __CPROVER_assume(!VSPACE(s[0]));
+    /* behaviour split of the two parse_line units (their union is every line): the SAT instance is the same size,
+     * but each half is decided in about half the time and the halves run in parallel */
+#if defined(U_PL_DIRECTIVE)
+    __CPROVER_assume(s[0] == '%');
+#elif defined(U_PL_NOT_DIRECTIVE)
+    __CPROVER_assume(s[0] != '%');
+#endif
     vg_seq++;
     vg_t_chomp = vg_seq;
 #define VLINE_SNAP(i) vg_line[i] = ((size_t) (i) < VREMAIN(s)) ? s[i] : 0;
